@@ -624,16 +624,21 @@ func runC02(e *Env) {
 				continue
 			}
 			k++
+			nrep := reps
 			if g == "recvFinalizePair" {
 				// only a peer that goes away gracefully lets a receiver with a
-				// wrong completed-files count return nil: all such positions
+				// wrong completed-files count return nil; the many-file family
+				// below is the main workload of this gate, these are a sample
 				if c.Fault.Kind != "close-sender" && c.Fault.Kind != "cancel-sender" {
 					continue
 				}
+				if (k+gi)%(2*gstep+2) != 0 {
+					continue
+				}
+				nrep = 2
 			} else if (k+gi)%gstep != 0 {
 				continue
 			}
-			nrep := reps
 			for rep := 0; rep < nrep; rep++ {
 				f := *c.Fault
 				add(c02Case{W: c.W, Gate: g, Fault: &f, Rep: rep})
